@@ -247,14 +247,15 @@ theorem add_spec (tw : TW Nat) (h : WF tw) (hp : Params tw) (v : Nat) (t : Int) 
       tw'.current = tw.current ∧ tw'.wheelLen = tw.wheelLen ∧ tw'.expired = tw.expired ∧
       (k : Int) = ticksFor tw.tickDuration (clamp tw.tickDuration tw.wheelDuration t) ∧ 1 ≤ k ∧ k + 1 ≤ tw.wheelLen ∧
       (∀ s, slot tw'.wheel s =
-        if s = slotOf tw.wheelLen tw.current (k + 1) then slot tw.wheel s ++ [v] else slot tw.wheel s) := by
+        if s = slotOf tw.wheelLen tw.current (k + 1) then slot tw.wheel s ++ [v] else slot tw.wheel s) ∧
+      tw'.tickDuration = tw.tickDuration ∧ tw'.wheelDuration = tw.wheelDuration := by
   obtain ⟨k, hk, k1, k2, hf⟩ := findWheel_slot tw h hp t
   obtain ⟨h1, h2⟩ := h
   have hlt : slotOf tw.wheelLen tw.current (k + 1) < tw.wheel.length := by
     rw [h1]; unfold slotOf; split <;> omega
   let i := slotOf tw.wheelLen tw.current (k + 1)
   let w' := tw.wheel.set i (slot tw.wheel i ++ [v])
-  refine ⟨{ tw with wheel := w', itemsCached := tw.itemsCached - 1 }, k, ?_, ?_, ?_, rfl, rfl, rfl, rfl, hk, k1, k2, ?_⟩
+  refine ⟨{ tw with wheel := w', itemsCached := tw.itemsCached - 1 }, k, ?_, ?_, ?_, rfl, rfl, rfl, rfl, hk, k1, k2, ?_, rfl, rfl⟩
   · unfold add; simp only [hf, hlt, if_true]; rfl
   · exact ⟨by show (tw.wheel.set _ _).length = _; rw [List.length_set]; exact h1, h2⟩
   · exact hp
@@ -365,5 +366,184 @@ theorem advance_wf (tw : TW Nat) (h : WF tw) (hp : Params tw) (now : Int) :
     | zero => intro t; rfl
     | succ m ih => intro t; simp only [tickSteps]; rw [ih]; rfl
   exact ⟨a, by unfold Params; simp only [d, hwd, b]; exact hp⟩
+
+
+/-! ### The tracked item through an arbitrary history -/
+
+theorem add_other (tw : TW Nat) (h : WF tw) (hp : Params tw) (v : Nat) (t : Int) (x : Nat) (hne : v ≠ x) :
+    ∃ tw', add tw v t = some tw' ∧ WF tw' ∧ Params tw' ∧ tw'.lastTick = tw.lastTick ∧
+      tw'.tickDuration = tw.tickDuration ∧ tw'.wheelDuration = tw.wheelDuration ∧
+      (∀ r, At tw x r → At tw' x r) ∧ (Fired tw x → Fired tw' x) ∧ (Gone tw x → Gone tw' x) := by
+  obtain ⟨tw', k, hadd, hwf, hpp, hl, hc, hlen, hexp, _, _, _, hslot, htd⟩ := add_spec tw h hp v t
+  have hcnt : ∀ s, (slot tw'.wheel s).count x = (slot tw.wheel s).count x := by
+    intro s; rw [hslot s]; split
+    · rw [List.count_append]; simp [hne]
+    · rfl
+  refine ⟨tw', hadd, hwf, hpp, hl, htd.1, htd.2, ?_, ?_, ?_⟩
+  · intro r ⟨a1, a2, a3, a4⟩
+    exact ⟨a1, by rw [hlen]; exact a2, by intro s hs; rw [hcnt, hlen, hc]; exact a3 s (by rw [← hlen]; exact hs), by rw [hexp]; exact a4⟩
+  · intro ⟨a3, a4⟩
+    exact ⟨by intro s hs; rw [hcnt]; exact a3 s (by rw [← hlen]; exact hs), by rw [hexp]; exact a4⟩
+  · intro ⟨a3, a4⟩
+    exact ⟨by intro s hs; rw [hcnt]; exact a3 s (by rw [← hlen]; exact hs), by rw [hexp]; exact a4⟩
+
+/-- adding the tracked item to a wheel that does not contain it puts it `k + 1` ticks ahead. -/
+theorem add_tracked (tw : TW Nat) (h : WF tw) (hp : Params tw) (x : Nat) (t : Int) (hg : Gone tw x) :
+    ∃ (tw' : TW Nat) (k : Nat), add tw x t = some tw' ∧ WF tw' ∧ Params tw' ∧ tw'.lastTick = tw.lastTick ∧
+      tw'.tickDuration = tw.tickDuration ∧ tw'.wheelDuration = tw.wheelDuration ∧
+      (k : Int) = ticksFor tw.tickDuration (clamp tw.tickDuration tw.wheelDuration t) ∧ At tw' x (k + 1) := by
+  obtain ⟨tw', k, hadd, hwf, hpp, hl, hc, hlen, hexp, hk, k1, k2, hslot, htd⟩ := add_spec tw h hp x t
+  refine ⟨tw', k, hadd, hwf, hpp, hl, htd.1, htd.2, hk, by omega, by rw [hlen]; omega, ?_, by rw [hexp]; exact hg.2⟩
+  intro s hs
+  rw [hlen] at hs
+  rw [hslot s, hlen, hc]
+  split
+  · rw [List.count_append, hg.1 s hs]; simp
+  · exact hg.1 s hs
+
+theorem purge_tracked (tw : TW Nat) (x : Nat) :
+    (∀ r, At tw x r → At (purge tw).2 x r ∧ (purge tw).1 ≠ some x) ∧
+    (Gone tw x → Gone (purge tw).2 x ∧ (purge tw).1 ≠ some x) ∧
+    (Fired tw x → ((purge tw).1 = some x ∧ Gone (purge tw).2 x) ∨ ((purge tw).1 ≠ some x ∧ Fired (purge tw).2 x)) := by
+  obtain ⟨p1, p2⟩ := purge_spec tw
+  cases he : tw.expired with
+  | nil =>
+    have := p1 he
+    rw [this]
+    exact ⟨fun r ha => ⟨ha, by simp⟩, fun hg => ⟨hg, by simp⟩, fun hf => by have := hf.2; rw [he] at this; simp at this⟩
+  | cons v rest =>
+    obtain ⟨q1, q2, q3, q4, q5, _, _, _⟩ := p2 v rest he
+    refine ⟨?_, ?_, ?_⟩
+    · intro r ⟨a1, a2, a3, a4⟩
+      rw [he, List.count_cons] at a4
+      have hv : v ≠ x := by intro e; subst e; simp at a4
+      refine ⟨⟨a1, by rw [q4]; exact a2, by rw [q3, q4, q5]; exact a3, by rw [q2]; omega⟩, ?_⟩
+      rw [q1]; intro e; exact hv (Option.some.inj e)
+    · intro ⟨a3, a4⟩
+      rw [he, List.count_cons] at a4
+      have hv : v ≠ x := by intro e; subst e; simp at a4
+      refine ⟨⟨by rw [q3, q4]; exact a3, by rw [q2]; omega⟩, ?_⟩
+      rw [q1]; intro e; exact hv (Option.some.inj e)
+    · intro ⟨a3, a4⟩
+      rw [he, List.count_cons] at a4
+      by_cases hv : v = x
+      · left
+        subst hv
+        simp at a4
+        exact ⟨q1, by rw [q3, q4]; exact a3, by rw [q2]; exact a4⟩
+      · right
+        have : (v == x) = false := by simp [hv]
+        rw [this] at a4
+        simp at a4
+        refine ⟨by rw [q1]; intro e; exact hv (Option.some.inj e), by rw [q3, q4]; exact a3, by rw [q2]; exact a4⟩
+
+theorem purge_params (tw : TW Nat) (h : WF tw) (hp : Params tw) :
+    WF (purge tw).2 ∧ Params (purge tw).2 ∧ (purge tw).2.lastTick = tw.lastTick ∧
+      (purge tw).2.tickDuration = tw.tickDuration ∧ (purge tw).2.wheelDuration = tw.wheelDuration := by
+  obtain ⟨p1, p2⟩ := purge_spec tw
+  cases he : tw.expired with
+  | nil => rw [p1 he]; exact ⟨h, hp, rfl, rfl, rfl⟩
+  | cons v rest =>
+    obtain ⟨_, _, q3, q4, q5, q6, q7, q8⟩ := p2 v rest he
+    exact ⟨⟨by rw [q3, q4]; exact h.1, by rw [q4, q5]; exact h.2⟩, by unfold Params; rw [q4, q7, q8]; exact hp, q6, q7, q8⟩
+
+/-- The invariant carried through a history for the tracked item `x` with due time `D`:
+still pending (and then no `Advance` has reached `D`), or on the expired list, or returned — exactly once. -/
+def Inv (tick span D : Int) (x : Nat) (st : TW Nat × List Nat) (lastNow : Int) : Prop :=
+  WF st.1 ∧ Params st.1 ∧ st.1.tickDuration = tick ∧ st.1.wheelDuration = span ∧
+  ∃ T, st.1.lastTick = some T ∧ T ≤ lastNow ∧
+    ((st.2.count x = 0 ∧ lastNow < D ∧ ∃ r, At st.1 x r ∧ T + r * tick = D) ∨
+     (st.2.count x = 0 ∧ D ≤ lastNow ∧ Fired st.1 x) ∨
+     (st.2.count x = 1 ∧ D ≤ lastNow ∧ Gone st.1 x))
+
+theorem inv_step (tick span D : Int) (x : Nat) (st : TW Nat × List Nat) (lastNow : Int) (op : Op)
+    (hinv : Inv tick span D x st lastNow)
+    (hno : ∀ v t, op = .add v t → v ≠ x)
+    (hm : ∀ now, op = .advance now → lastNow ≤ now) :
+    Inv tick span D x (runOp st op) (lastAdvance lastNow [op]) := by
+  obtain ⟨hwf, hp, htk, hsp, T, hl, hT, hcase⟩ := hinv
+  have ht1 : 1 ≤ st.1.tickDuration := hp.1
+  cases op with
+  | add v t =>
+    have hne := hno v t rfl
+    obtain ⟨tw', hadd, w', p', l', td', wd', f1, f2, f3⟩ := add_other st.1 hwf hp v t x hne
+    simp only [runOp, hadd, lastAdvance]
+    refine ⟨w', p', by rw [td', htk], by rw [wd', hsp], T, by rw [l', hl], hT, ?_⟩
+    rcases hcase with ⟨c1, c2, r, c3, c4⟩ | ⟨c1, c2, c3⟩ | ⟨c1, c2, c3⟩
+    · exact Or.inl ⟨c1, c2, r, f1 r c3, c4⟩
+    · exact Or.inr (Or.inl ⟨c1, c2, f2 c3⟩)
+    · exact Or.inr (Or.inr ⟨c1, c2, f3 c3⟩)
+  | purge =>
+    obtain ⟨w', p', l', td', wd'⟩ := purge_params st.1 hwf hp
+    obtain ⟨g1, g2, g3⟩ := purge_tracked st.1 x
+    have hout : (runOp st .purge).1 = (purge st.1).2 ∧
+        (runOp st .purge).2.count x = st.2.count x + (if (purge st.1).1 = some x then 1 else 0) := by
+      simp only [runOp]
+      cases hpu : purge st.1 with
+      | mk o tw2 =>
+        cases o with
+        | none => simp
+        | some v =>
+          simp only [List.count_append]
+          by_cases hv : v = x
+          · subst hv; simp
+          · have : ¬ (some v = some x) := fun e => hv (Option.some.inj e)
+            simp [hv, this]
+    simp only [lastAdvance]
+    refine ⟨by rw [hout.1]; exact w', by rw [hout.1]; exact p', by rw [hout.1, td', htk], by rw [hout.1, wd', hsp],
+      T, by rw [hout.1, l', hl], hT, ?_⟩
+    rw [hout.2, hout.1]
+    rcases hcase with ⟨c1, c2, r, c3, c4⟩ | ⟨c1, c2, c3⟩ | ⟨c1, c2, c3⟩
+    · obtain ⟨a, b⟩ := g1 r c3
+      exact Or.inl ⟨by simp [c1, b], c2, r, a, c4⟩
+    · rcases g3 c3 with ⟨a, b⟩ | ⟨a, b⟩
+      · exact Or.inr (Or.inr ⟨by simp [c1, a], c2, b⟩)
+      · exact Or.inr (Or.inl ⟨by simp [c1, a], c2, b⟩)
+    · obtain ⟨a, b⟩ := g2 c3
+      exact Or.inr (Or.inr ⟨by simp [c1, b], c2, a⟩)
+  | advance now =>
+    have hmn := hm now rfl
+    obtain ⟨w', p'⟩ := advance_wf st.1 hwf hp now
+    obtain ⟨adv, hadv, hadvance, hle, _⟩ := advance_spec st.1 T now hl ht1 (by omega)
+    have hparams : (advance st.1 now).tickDuration = st.1.tickDuration ∧
+        (advance st.1 now).wheelDuration = st.1.wheelDuration := by
+      rw [hadvance]
+      have hwd : ∀ (m : Nat) (t : TW Nat), (tickSteps m t).wheelDuration = t.wheelDuration := by
+        intro m; induction m with
+        | zero => intro t; rfl
+        | succ m ih => intro t; simp only [tickSteps]; rw [ih]; rfl
+      exact ⟨(tickSteps_params _ st.1 hwf).2.2.2, hwd _ _⟩
+    simp only [runOp, lastAdvance]
+    refine ⟨w', p', by rw [hparams.1, htk], by rw [hparams.2, hsp], ?_⟩
+    rcases hcase with ⟨c1, c2, r, c3, c4⟩ | ⟨c1, c2, c3⟩ | ⟨c1, c2, c3⟩
+    · obtain ⟨e1, e2⟩ := advance_at st.1 hwf T now hl ht1 (by omega) x r c3
+      rw [htk] at e1 e2
+      by_cases hd : now < D
+      · obtain ⟨r', T', a1, a2, a3, a4⟩ := e1 (by omega)
+        exact ⟨T', a2, a4, Or.inl ⟨c1, hd, r', a1, by omega⟩⟩
+      · have hf := e2 (by omega)
+        exact ⟨T + st.1.tickDuration * adv, by rw [hadvance], hle, Or.inr (Or.inl ⟨c1, by omega, hf⟩)⟩
+    · refine ⟨T + st.1.tickDuration * adv, by rw [hadvance], hle, Or.inr (Or.inl ⟨c1, by omega, ?_⟩)⟩
+      rw [hadvance]
+      exact fired_congr (tickSteps (min adv st.1.wheelLen) st.1) _ x rfl rfl rfl (tickSteps_fired _ st.1 hwf x c3)
+    · refine ⟨T + st.1.tickDuration * adv, by rw [hadvance], hle, Or.inr (Or.inr ⟨c1, by omega, ?_⟩)⟩
+      rw [hadvance]
+      exact gone_congr (tickSteps (min adv st.1.wheelLen) st.1) _ x rfl rfl rfl (tickSteps_gone _ st.1 hwf x c3)
+
+theorem inv_run (tick span D : Int) (x : Nat) (ops : List Op) (st : TW Nat × List Nat) (lastNow : Int)
+    (hinv : Inv tick span D x st lastNow)
+    (hno : ∀ v t, Op.add v t ∈ ops → v ≠ x) (hm : Mono lastNow ops) :
+    Inv tick span D x (run st ops) (lastAdvance lastNow ops) := by
+  induction ops generalizing st lastNow with
+  | nil => exact hinv
+  | cons op rest ih =>
+    have hstep := inv_step tick span D x st lastNow op hinv
+      (fun v t e => hno v t (by rw [e]; exact List.mem_cons_self))
+      (fun now e => by subst e; exact hm.1)
+    have hrest : ∀ v t, Op.add v t ∈ rest → v ≠ x := fun v t hmem => hno v t (List.mem_cons_of_mem _ hmem)
+    cases op with
+    | add v t => exact ih (runOp st (.add v t)) lastNow hstep hrest hm
+    | purge => exact ih (runOp st .purge) lastNow hstep hrest hm
+    | advance now => exact ih (runOp st (.advance now)) now hstep hrest hm.2
 
 end Nebula.Lemmas.Wheel
